@@ -1,7 +1,51 @@
 import Atomman.C20
 open Atomman Atomman.C20
 
-def handleC20 (toks : List String) : String :=
+/-! Line-protocol driver for C20.  Stateless ops: `euler rk cd cda climb rate phase`.
+    Stateful ops (`p…`): a table of path objects (`Path Vec Rat`) addressed by index. -/
+
+structure Obj where
+  path : Path Vec Rat
+  dim : Nat
+  a : List Rat
+  b : List Rat
+  c : List Rat
+  m : Rat
+
+abbrev St := Array Obj
+
+def gfCd (dim : Nat) : (Vec → Rat) → Vec → Option Rat → Vec :=
+  fun f x kw => cdPoint Vec.mk (unitVec dim) dim f x (kw.getD Gen.cdDefaultShift)
+
+def gfAnalytic (a b c : List Rat) (m : Rat) : (Vec → Rat) → Vec → Option Rat → Vec :=
+  fun _ x kw => (kw.getD 1) • testGrad a b c m x
+
+def integOf? : String → Option ((Vec → Vec) → Vec → Rat → Vec)
+  | "euler" => some (fun r x h => Gen.euler r x h)
+  | "rk" => some (fun r x h => Gen.rungekutta r x h)
+  | _ => none
+
+def gfOf? (o : Obj) : String → Option ((Vec → Rat) → Vec → Option Rat → Vec)
+  | "cd" => some (gfCd o.dim)
+  | "an" => some (gfAnalytic o.a o.b o.c o.m)
+  | _ => none
+
+def rowsOf (d : Nat) (n : Nat) (xs : List Rat) : List Vec := (chunks d n xs).map Vec.mk
+
+def showRows (rows : List Vec) : String := showRats (rows.flatMap (·.d))
+
+def sect (l : List String) : String := " ; ".intercalate l
+
+def observe (o : Obj) : String :=
+  let p := o.path
+  let n := p.coord.length
+  let geo := n ≥ 2
+  sect [showRows p.coord, showRats p.energy, showRows p.gradEnergy,
+        showRats (p.arccoord Vec.dot ratSqrt),
+        if geo then showRows (p.unitTangent Vec.dot ratSqrt) else err "value",
+        if geo then showRats (p.force Vec.dot ratSqrt) else err "value"]
+
+def handleStateless (toks : List String) : String :=
   match toks with
   | "euler" :: n :: rest | "rk" :: n :: rest =>
     match n.toNat?, parseRats? rest with
@@ -24,6 +68,20 @@ def handleC20 (toks : List String) : String :=
       if s = 0 then err "value" else
       showRat (Gen.cdComponent (testFxn a b c m) x (unitVec n i s) s)
     | _, _, _ => err "format"
+  -- cda d P s <a d> <b d> <c d> m <pts P*d> : central_difference on an array of P points (any leading shape,
+  -- row-major); reply: the gradient array, row-major
+  | "cda" :: d :: np :: rest =>
+    match d.toNat?, np.toNat?, parseRats? rest with
+    | some d, some np, some xs =>
+      if xs.length ≠ 1 + 3 * d + 1 + np * d then err "format" else
+      let s := xs.headD 0
+      let xs := xs.drop 1
+      let a := xs.take d; let b := (xs.drop d).take d; let c := (xs.drop (2 * d)).take d
+      let m := (xs.drop (3 * d)).headD 0
+      let pts := rowsOf d np (xs.drop (3 * d + 1))
+      if s = 0 then err "value" else
+      showRows (cdArray Vec.mk (unitVec d) d (testFxn a b c m) pts s)
+    | _, _, _ => err "format"
   | "climb" :: n :: rest =>
     match n.toNat?, parseRats? rest with
     | some n, some xs =>
@@ -39,6 +97,102 @@ def handleC20 (toks : List String) : String :=
     match n.toNat?, parseRat? tol, parseRats? rest with
     | some n, some tol, some ds => toString (phaseSteps tol n ds)
     | _, _, _ => err "format"
+  | "pdef" :: n :: [] =>
+    match n.toNat? with
+    | some n => if n = 0 then err "value" else
+      showRats [Path.defaultTimestep (K := Rat) n, Path.defaultTolerance (K := Rat) n]
+    | none => err "format"
   | _ => err "op"
 
-def main : IO Unit := runDriver handleC20
+def withObj (st : St) (k : String) (f : Obj → St × String) : St × String :=
+  match k.toNat? with
+  | some k => match st[k]? with
+    | some o => f o
+    | none => (st, err "value")
+  | none => (st, err "format")
+
+def setPath (st : St) (k : String) (o : Obj) (p : Path Vec Rat) : St :=
+  match k.toNat? with
+  | some k => st.setIfInBounds k { o with path := p }
+  | none => st
+
+def stepC20 (st : St) (toks : List String) : St × String :=
+  match toks with
+  -- pnew d N g kwflag integ <coords N*d> <a d> <b d> <c d> m [kw]
+  | "pnew" :: d :: n :: g :: kwf :: integ :: rest =>
+    match d.toNat?, n.toNat?, parseRats? rest, integOf? integ with
+    | some d, some n, some xs, some ifx =>
+      let nkw := if kwf = "1" then 1 else 0
+      if xs.length ≠ n * d + 3 * d + 1 + nkw ∨ d = 0 then (st, err "format") else
+      let coord := rowsOf d n xs
+      let ps := xs.drop (n * d)
+      let a := ps.take d; let b := (ps.drop d).take d; let c := (ps.drop (2 * d)).take d
+      let m := (ps.drop (3 * d)).headD 0
+      let kw := if nkw = 1 then some (xs.getLastD 0) else none
+      let o0 : Obj := ⟨⟨coord, testFxn a b c m, gfCd d, kw, ifx⟩, d, a, b, c, m⟩
+      match gfOf? o0 g with
+      | some gf => (st.push { o0 with path := { o0.path with gradientfxn := gf } }, s!"ok {st.size}")
+      | none => (st, err "format")
+    | _, _, _, _ => (st, err "format")
+  | "pcoord" :: k :: n :: rest => withObj st k fun o =>
+    match n.toNat?, parseRats? rest with
+    | some n, some xs =>
+      if xs.length ≠ n * o.dim then (st, err "format") else
+      (setPath st k o (o.path.apply (.setCoord (rowsOf o.dim n xs))), "ok")
+    | _, _ => (st, err "format")
+  | "prow" :: k :: i :: rest => withObj st k fun o =>
+    match i.toNat?, parseRats? rest with
+    | some i, some xs =>
+      if xs.length ≠ o.dim then (st, err "format") else
+      if i ≥ o.path.coord.length then (st, err "value") else
+      (setPath st k o (o.path.apply (.setRow i ⟨xs⟩)), "ok")
+    | _, _ => (st, err "format")
+  | ["pgfx", k, g] => withObj st k fun o =>
+    match gfOf? o g with
+    | some gf => (setPath st k o (o.path.apply (.setGradientfxn gf)), "ok")
+    | none => (st, err "value")
+  | "pkw" :: k :: flag :: rest => withObj st k fun o =>
+    match flag, parseRats? rest with
+    | "0", some [] => (setPath st k o (o.path.apply (.setKwargs none)), "ok")
+    | "1", some [v] => (setPath st k o (o.path.apply (.setKwargs (some v))), "ok")
+    | _, _ => (st, err "format")
+  | ["pint", k, integ] => withObj st k fun o =>
+    match integOf? integ with
+    | some f => (setPath st k o (o.path.apply (.setIntegratorfxn f)), "ok")
+    | none => (st, err "value")
+  -- attribute without a setter (energyfxn, gradientkwargs): refused, state unchanged
+  | ["psetattr", k, _] => withObj st k fun _ => (st, err "op")
+  | ["pobs", k] => withObj st k fun o => (st, observe o)
+  | "penergy" :: k :: n :: rest => withObj st k fun o =>
+    match n.toNat?, parseRats? rest with
+    | some n, some xs =>
+      if xs.length ≠ n * o.dim then (st, err "format") else (st, showRats (o.path.energyAt (rowsOf o.dim n xs)))
+    | _, _ => (st, err "format")
+  | "pgradat" :: k :: n :: rest => withObj st k fun o =>
+    match n.toNat?, parseRats? rest with
+    | some n, some xs =>
+      if xs.length ≠ n * o.dim then (st, err "format") else (st, showRows (o.path.gradAt (rowsOf o.dim n xs)))
+    | _, _ => (st, err "format")
+  -- pstep k h [i…] : new object (same functions and settings) holding the integrated coordinates
+  | "pstep" :: k :: h :: climb => withObj st k fun o =>
+    match parseRat? h, parseNats? climb with
+    | some h, some climb =>
+      let n := o.path.coord.length
+      if climb.any (· ≥ n) then (st, err "value") else
+      if n < 2 then (st, err "value") else
+      let ic := if climb.isEmpty then o.path.icoordPlain h else o.path.icoord Vec.dot ratSqrt h climb
+      (st.push { o with path := o.path.withCoord ic }, sect [s!"ok {st.size}", showRows ic])
+    | _, _ => (st, err "format")
+  -- pends k h n : the first and last image after n ordinary steps
+  | ["pends", k, h, n] => withObj st k fun o =>
+    match parseRat? h, n.toNat? with
+    | some h, some n =>
+      match o.path.coord.head?, o.path.coord.getLast? with
+      | some x0, some xl => (st, showRows (o.path.iterateRows h n [x0, xl]))
+      | _, _ => (st, err "value")
+    | _, _ => (st, err "format")
+  | ["pcopy", k] => withObj st k fun o => (st.push o, s!"ok {st.size}")
+  | ["preset"] => (#[], "ok")
+  | _ => (st, handleStateless toks)
+
+def main : IO Unit := runDriverS stepC20 (#[] : St)
